@@ -229,6 +229,63 @@ func c09Regen(c *core.Ctx) {
 		}
 		c.Count("repeated_regenerations_compared", float64(len(checked)))
 	}
+	// the generator also takes several sources in ONE invocation (a script regenerating a whole package, or everything):
+	// per package and all at once, over the up-to-date tree - the n-th wrapper of a process must be the same wrapper
+	if len(c.Res.Violations) == 0 {
+		byPkg := map[string][]string{}
+		var all []string
+		for _, f := range listFiles(filepath.Join(scratch, "models"), "*.go") {
+			if strings.HasPrefix(filepath.Base(f), "generated_") {
+				continue
+			}
+			b, _ := os.ReadFile(filepath.Join(scratch, "models", f))
+			if !bytes.Contains(b, []byte("OW-SPEC")) {
+				continue
+			}
+			rel := "./" + filepath.Join("models", f)
+			byPkg[filepath.Dir(rel)] = append(byPkg[filepath.Dir(rel)], rel)
+			all = append(all, rel)
+		}
+		batches := [][]string{all}
+		var pkgs []string
+		for p := range byPkg {
+			pkgs = append(pkgs, p)
+		}
+		sort.Strings(pkgs)
+		for _, p := range pkgs {
+			if len(byPkg[p]) > 1 {
+				batches = append(batches, byPkg[p])
+			}
+		}
+		for bi, batch := range batches {
+			if out, err := runIn(scratch, env, filepath.Join(bin, "ow-specgen"), batch...); err != nil {
+				c.Violate("generator-fails", "pre/ow-specgen", fmt.Sprintf("one invocation for %d sources: %v %s", len(batch), err, headStr(out, 400)))
+				break
+			}
+			c.Count("multi_source_invocations", 1)
+			bad := false
+			for _, f := range checked {
+				name := strings.TrimSuffix(strings.TrimPrefix(filepath.Base(f), "generated_"), ".go")
+				if fm := sim.Catalog[name]; fm != nil && len(fm().Description().Dimensions) >= 2 {
+					continue
+				}
+				a, _ := os.ReadFile(filepath.Join(repoDir, f))
+				b, _ := os.ReadFile(filepath.Join(scratch, f))
+				if !bytes.Equal(a, b) {
+					c.Violate("generator-not-deterministic", f, fmt.Sprintf("one ow-specgen invocation for %d sources (batch %d) writes other bytes than one invocation per source (and than the checked-in file): %s", len(batch), bi, firstDiffLine(a, b)))
+					bad = true
+					break
+				}
+			}
+			if bad {
+				break
+			}
+		}
+		// leave the scratch tree as single-source invocations make it (multi-dimension models are handled below)
+		if len(c.Res.Violations) > 0 {
+			return
+		}
+	}
 	// models with >= 2 dimensions: map-order dependent output; re-run until a match or 64 runs
 	multiDim := map[string]bool{}
 	for name, f := range sim.Catalog {
